@@ -260,11 +260,14 @@ for i, f in enumerate(FNS):
             elem_ty, conv = "&str", ".to_string()"
         else:
             elem_ty, conv = ty, (".clone()" if ty.startswith(("Vec", "(", "Option")) else "")
+        # methods: the arguments repeat with period 4 while the receiver changes every 4 tuples, so
+        # two different receivers are called with equal arguments
+        kx = "(k as usize % 4)" if recv is not None else "k as usize"
         if ty in ("Vec<u8>", "(u32, String)"):
             # not const-constructible: build at call time
-            call_args.append(f"{{ let t: [{ty}; {n}] = [{vals}]; t[(k as usize * {mul} + {off}) % {n}].clone() }}")
+            call_args.append(f"{{ let t: [{ty}; {n}] = [{vals}]; t[({kx} * {mul} + {off}) % {n}].clone() }}")
         else:
-            call_args.append(f"{{ const T: [{elem_ty}; {n}] = [{vals}]; T[(k as usize * {mul} + {off}) % {n}]{conv} }}")
+            call_args.append(f"{{ const T: [{elem_ty}; {n}] = [{vals}]; T[({kx} * {mul} + {off}) % {n}]{conv} }}")
     repr_expr = "format!(\"{:?}\", (" + "".join(p + ", " for p in repr_parts) + "))"
     body_fn = "world::abody" if is_async else "world::body"
     awaitk = ".await" if is_async else ""
@@ -295,10 +298,15 @@ for i, f in enumerate(FNS):
     else:
         rty = "RecvC" if recv == "val" else "Recv"
         w(f"impl {rty} {{\n{fn_src}\n}}")
-        if rty == "RecvC":
-            recv_build = "let mut rc = RecvC { id: k as u32, flag: k % 2 == 0 };"
+        if not sig:
+            if rty == "RecvC":
+                recv_build = "let mut rc = RecvC { id: k as u32, flag: k % 2 == 0 };"
+            else:
+                recv_build = "let mut rc = Recv { id: (k / 2) as u32, tag: [\"a|b\", \"a\"][k as usize % 2].to_string() };"
+        elif rty == "RecvC":
+            recv_build = "let mut rc = RecvC { id: (k / 4) as u32, flag: k / 4 == 0 };"
         else:
-            recv_build = "let mut rc = Recv { id: (k / 2) as u32, tag: [\"a|b\", \"a\"][k as usize % 2].to_string() };"
+            recv_build = "let mut rc = Recv { id: 7, tag: [\"a|b\", \"a\"][k as usize / 4 % 2].to_string() };"
         callee = "rc." + name
     # adapters
     argl = ", ".join(call_args)
